@@ -99,6 +99,10 @@ def probe_frames(tc: bool, mid: int, live_ids: Sequence[int], sizes=(0, 4), tag:
     # header fields that must arrive unchanged
     mk(T1, size=sizes[-1], src_host_id=3, remaining_bytes=9, is_dynamic=1, reserved=0xDEADBEEF, recv_time=2.5)
     mk(T2, size=0, src_mod_id=mid, reserved=1)
+    # a relayed / replayed message: the published source id is not the id the connection registered with
+    mk(T1, size=sizes[-1], src_mod_id=42)
+    mk(T1, size=0, src_mod_id=0)
+    mk(T2, size=sizes[-1], src_mod_id=-3, src_host_id=-1)
     return out
 
 
